@@ -147,6 +147,35 @@ class Check(PropertyCheck):
             rows = ["".join(self.rng.choice(alpha) if self.rng.below(100) < dens else " " for _ in range(w)) for _ in range(h)]
             out.append(rows)
         out.append(["|  |", "+--+", "|  |", "+--+", "|  |"])
+        # closed boxes with strokes that run across a wall without ending on it (`-|-`, `-+-` in a side wall, `|` through
+        # the top or bottom edge), with tails inside and outside the box
+        for _ in range(self.scale(150, 2500)):
+            w, h = self.rng.range(2, 7), self.rng.range(1, 4)
+            rows = gen.place(gen.box(w, h), 3, 2).split("\n")
+            rows = [list(r.ljust(w + 8)) for r in rows] + [list(" " * (w + 8)) for _ in range(2)]
+            for _ in range(self.rng.range(1, 3)):
+                side = self.rng.below(4)
+                if side < 2:      # across the left / right wall, on an interior row
+                    y = 3 + self.rng.below(h)
+                    x = 3 if side == 0 else 3 + w + 1
+                    if self.rng.chance(1, 3):
+                        rows[y][x] = "+"
+                    for dx in range(1, self.rng.range(1, 3) + 1):
+                        if 0 <= x - dx < len(rows[y]) and rows[y][x - dx] == " ":
+                            rows[y][x - dx] = "-"
+                        if x + dx < len(rows[y]) and rows[y][x + dx] == " ":
+                            rows[y][x + dx] = "-"
+                else:             # through the top / bottom edge, in an interior column
+                    x = 4 + self.rng.below(w)
+                    y = 2 if side == 2 else 2 + h + 1
+                    if self.rng.chance(1, 3):
+                        rows[y][x] = "+"
+                    for dy in (1, 2):
+                        if 0 <= y - dy and rows[y - dy][x] == " ":
+                            rows[y - dy][x] = "|"
+                        if y + dy < len(rows) and rows[y + dy][x] == " ":
+                            rows[y + dy][x] = "|"
+            out.append(["".join(r).rstrip() for r in rows])
         # rulers, combs and bar charts: many vertical strokes standing on one base line, also with labels
         for _ in range(self.scale(120, 2000)):
             rows = gen.comb(self.rng, below=self.rng.chance(1, 4)).split("\n")
@@ -212,8 +241,15 @@ class Check(PropertyCheck):
         return fails
 
     def oracle_on_texts(self, texts):
-        ok = set("-|+ \n") | set("abcdefghijklmnpqrstuwyzABCDEFGHIJKLMNPQRSTUWYZ0123456789") | set(gen.ALIAS_LABELS)
-        return self.oracle([t.split("\n") for t in texts if set(t) <= ok])
+        # drawings from other generators (suspects of the correspondence, extremes, drawings around changed table entries) are
+        # projected onto the alphabet of the property: the layout stays, foreign line characters become `- | +`
+        seen, out = set(), []
+        for t in texts:
+            p = self.extreme_input(t.split("# Legend:")[0].replace('"', "x").replace("\r", "").replace("\t", " "))
+            if p is not None and p not in seen:
+                seen.add(p)
+                out.append(p.split("\n"))
+        return self.oracle(out)
 
     def extreme_input(self, text):
         """project an extreme drawing onto the alphabet of the property: other line characters become `-` / `|` / `+`,
